@@ -220,6 +220,50 @@ def is_num(v):
     return isinstance(v, (int, Fraction, Node, ArrBox)) and not isinstance(v, bool)
 
 
+class ArrPart(Arr):
+    """np.real(a) / np.imag(a) (a.real / a.imag) of an array: numpy hands back a VIEW of the same memory, so a store through it changes that component of the source array."""
+
+    def __init__(self, src, part):
+        Arr.__init__(self, f'{part}({src.name})', shape=src.shape)
+        self.src = src; self.part = part
+
+    def view(self, offset):
+        v = ArrPart(self.src.view(offset), self.part)
+        return v
+
+    def get(self, idx):
+        return X.fn(self.part, to_node(self.src.get(idx)))
+
+    def set(self, idx, v, node=None):
+        cur = to_node(self.src.get(idx))
+        if self.part == 'real':
+            new = X.add(to_node(v), X.mul(X.I, X.fn('imag', cur)))
+        else:
+            new = X.add(X.fn('real', cur), X.mul(X.I, to_node(v)))
+        self.src.set(idx, new, node)
+
+
+def arr_len(a):
+    """length of a 1-d array of known shape, else None"""
+    sh = getattr(a, 'shape', None)
+    if isinstance(sh, tuple) and len(sh) == 1 and isinstance(sh[0], int):
+        return sh[0]
+    return None
+
+
+def arr_slice(a, sl, where=''):
+    """a[start:stop] of a 1-d array of known length: a view of the same memory (numpy basic indexing)"""
+    n = arr_len(a)
+    if n is None:
+        raise AnalysisError(f'{where}: slice of an array of unknown shape')
+    lo, hi, step = sl.indices(n)
+    if step != 1:
+        raise AnalysisError(f'{where}: strided slice of an array')
+    v = a.view(lo)
+    v.shape = (max(0, hi - lo),)
+    return v
+
+
 class ArrBox:
     """array mode: a numpy array is a mutable object -- `x = y` makes two names for one array and `x *= c` changes it for both.  An ArrBox is that object; its content is the
     (immutable) expression for one generic element.  Arithmetic reads the content and yields a fresh ArrBox; augmented assignment replaces the content in place."""
@@ -707,7 +751,13 @@ class Interp:
             base = self.eval(t.value, fr)
             idx = self.index(t.slice, fr)
             if isinstance(base, Arr):
-                base.set(idx, v, st)
+                if isinstance(idx, slice):
+                    tgt = arr_slice(base, idx, fr.mod.where(st))
+                    vals = [v.get(k_) for k_ in range(arr_len(tgt))] if isinstance(v, Arr) else [v] * arr_len(tgt)      # (read everything before the first store: source and target may overlap)
+                    for k_, x_ in enumerate(vals):
+                        tgt.set(k_, x_, st)
+                else:
+                    base.set(idx, v, st)
             elif isinstance(base, dict):
                 base[idx] = v
             elif isinstance(base, list):
@@ -822,7 +872,8 @@ class Interp:
                     return ('class', m2, node)
                 key = (m2.name, n)
                 if key not in self.module_const_cache:
-                    if self.module_binding_count(m2, n) > 1:
+                    rebinds_import = n in getattr(m2, 'imports', {}) or (isinstance(node, ast.Assign) and any(isinstance(x_, ast.Name) and x_.id == n and isinstance(x_.ctx, ast.Load) for x_ in ast.walk(node.value)))
+                    if self.module_binding_count(m2, n) > 1 or rebinds_import:
                         self.module_const_cache[key] = self.module_value(m2, n)       # built by several top-level statements (a loop filling a list, then frozen into a tuple)
                     else:
                         val = node.value
@@ -878,6 +929,15 @@ class Interp:
                     chosen.add(i_); changed = True
                     need |= {n_.id for n_ in ast.walk(st) if isinstance(n_, ast.Name) and isinstance(n_.ctx, ast.Load)}
         fr = Frame(mod, '<module>')
+        # a name that an import statement binds and a later top-level statement rebinds (`f = remember(f)`): the right-hand side reads the imported object
+        for nm_ in sorted(need):
+            if nm_ in getattr(mod, 'imports', {}) and nm_ in mod.defs:
+                r_ = self.repo.resolve(mod, nm_, skip_defs=True)
+                if r_ is not None and r_[0] == 'def' and isinstance(r_[2], ast.FunctionDef): fr.vars[nm_] = FuncRef(r_[1], r_[2])
+                elif r_ is not None and r_[0] == 'def' and isinstance(r_[2], ast.ClassDef): fr.vars[nm_] = ('class', r_[1], r_[2])
+                elif r_ is not None and r_[0] == 'def': fr.vars[nm_] = self.global_name(r_[1], nm_ if nm_ in r_[1].defs else mod.imports[nm_][2])
+                elif r_ is not None and r_[0] == 'module': fr.vars[nm_] = ModuleRef(r_[1])
+                elif r_ is not None and r_[0] == 'external': fr.vars[nm_] = self.external(r_[1], r_[2])
         for i_ in sorted(chosen):
             self.exec(body[i_], fr)
         if name not in fr.vars:
@@ -1256,6 +1316,15 @@ class Interp:
             h = self.hooks.get('array_binop')
             if h is not None:
                 return h(self, op, a, b)
+            na_ = arr_len(a) if isinstance(a, Arr) else None; nb_ = arr_len(b) if isinstance(b, Arr) else None
+            n_ = na_ if na_ is not None else nb_
+            if n_ is not None and (na_ in (None, n_)) and (nb_ in (None, n_)) and (not isinstance(a, Arr) or na_ is not None) and (not isinstance(b, Arr) or nb_ is not None):
+                # element-wise arithmetic of 1-d arrays of known, equal length (or an array and a scalar): a fresh array
+                out = Arr('tmp', shape=(n_,))
+                for k_ in range(n_):
+                    out.set(k_, self.binop(op, a.get(k_) if isinstance(a, Arr) else a, b.get(k_) if isinstance(b, Arr) else b, e, fr))
+                out.writes.clear()
+                return out
             raise AnalysisError('arithmetic on whole arrays is not modelled here')
         na, nb = to_node(a), to_node(b)
         if isinstance(op, ast.Add): return X.add(na, nb)
@@ -1428,6 +1497,8 @@ class Interp:
         if isinstance(base, Arr):
             if base.dims and len(base.dims) > 1 and isinstance(idx, int):
                 return base.sub(idx)
+            if isinstance(idx, slice):
+                return arr_slice(base, idx, fr.mod.where(e))
             return base.get(idx)
         if isinstance(base, (tuple, list, str)):
             try:
@@ -1774,6 +1845,8 @@ class Interp:
         if (nm in UNARY_FUNCS or nm in NP_ALIASES) and args and isinstance(args[0], Arr):
             base = args[0]
             t = NP_ALIASES.get(nm, nm)
+            if t in ('real', 'imag'):
+                return ArrPart(base, t)          # a view: stores through it reach the source array
             return Arr(f'{t}({base.name})', default=lambda k, b=base, t=t: X.fn(t, to_node(b.get(k))), shape=base.shape)
         if (nm in UNARY_FUNCS or nm in NP_ALIASES) and args and isinstance(args[0], Opaque) and args[0].name in ('inf', 'nan', 'arith'):
             return Opaque('arith')            # a function of an infinity / NaN / unknown stays unknown
@@ -1874,6 +1947,9 @@ class Interp:
         if nm in ('allclose', 'isclose', 'array_equal', 'array_equiv') and len(args) >= 2:
             if args[0] is args[1]:
                 return True
+            ua_, ub_ = unbox(args[0]), unbox(args[1])
+            if isinstance(ua_, Node) and isinstance(ub_, Node) and ua_.uid == ub_.uid:
+                return True               # two arrays (or numbers) holding the same expression
             ca, cb = (concrete(a_) if isinstance(a_, (Node, int, Fraction)) and not isinstance(a_, bool) else None for a_ in args[:2])
             if ca is not None and cb is not None and ca == cb:
                 return True
@@ -1962,6 +2038,8 @@ class Interp:
             return list(zip(*[seq(a_) for a_ in args]))
         if nm == 'sum':
             out = 0
+            if isinstance(args[0], Arr) and arr_len(args[0]) is not None and kwargs.get('axis', args[1] if len(args) > 1 else 0) in (0, None, -1):
+                args = [[args[0].get(k_) for k_ in range(arr_len(args[0]))]]
             for v in args[0]:
                 out = self.binop(ast.Add(), out, v)
             return out
